@@ -2,104 +2,104 @@ package main
 
 func init() {
 	register("C03", &propDef{
-		patterns: []string{"./embedded/store", "./embedded/ahtree", "./embedded/tbtree", "./embedded/appendable/..."},
-		run:      c03,
+		patterns:    []string{"./embedded/store", "./embedded/ahtree", "./embedded/tbtree", "./embedded/appendable/..."},
+		run:         c03,
 		explanation: "Decides the write-ordering, acknowledgement and error-discipline clauses that every crash argument for immudb's commit protocol rests on (value/tx log flush+fsync before commit-log append+fsync before ack; hash-tree and index commit entries after their payload is flushed/fsynced; recovery guards; no dropped storage error). It does NOT decide which bytes survive a crash or that recovery as a whole is correct.",
 		assumptions: []string{"appendable implementations honour Flush/Sync", "frozen rule tables name the durability points correctly"},
 	})
 	register("C02", &propDef{
-		patterns: []string{"./embedded/store", "./pkg/database"},
-		run:      c02,
+		patterns:    []string{"./embedded/store", "./pkg/database"},
+		run:         c02,
 		explanation: "Decides the structural clauses that keep committed history immutable: single writer sites and write positions of the tx log and commit log, no DiscardUpto on history logs, lockset of the commit-state fields, the discard guard, the chain check of TxReader, and that one Alh value feeds the tx record, the hash tree, the commit buffer and the in-memory frontier. It does NOT decide id density or byte equality over interleavings.",
 		assumptions: []string{"all mutation of ImmuStore commit state goes through field stores visible to go/ssa (no unsafe, no reflection)"},
 	})
 	register("C17", &propDef{
-		patterns: []string{"./embedded/appendable/..."},
-		run:      c17,
+		patterns:    []string{"./embedded/appendable/..."},
+		run:         c17,
 		explanation: "Decides the structural clauses behind the byte-log behaviour of the single-file and multi-file appendables: lock pairing and lockset of their mutable state, flush-before-fsync/close/read-only ordering, seek-before-write and the file-position typestate (seekRequired), offset captured before the write, chunk rotation order and its guard, SetOffset rewind discipline and the chunk-discard guard. It does NOT decide refinement of the byte-array model for arbitrary operation sequences.",
 		assumptions: []string{"os.File semantics", "lower-case helpers are only entered with the mutex held (checked at every call site)"},
 	})
 	register("C14", &propDef{
-		patterns: []string{"./embedded/store", "./embedded/appendable/...", "./embedded/tbtree", "./pkg/database", "./pkg/truncator"},
-		run:      c14,
+		patterns:    []string{"./embedded/store", "./embedded/appendable/...", "./embedded/tbtree", "./pkg/database", "./pkg/truncator"},
+		run:         c14,
 		explanation: "Decides the structural clauses behind safe value-log truncation: lock pairing in the store (a leaked value-buffer mutex in ExportTx blocks every later export), value logs always released, DiscardUpto only on fetched value logs / the index's own logs and never with embedded values, chunk deletion strictly below the offset's chunk, catalog copy before truncation through a single entry point, and truncated values mapping to io.EOF / digest export. It does NOT decide the tombstone arithmetic of TruncateUptoTx (value-dependent).",
 		assumptions: []string{"decodeOffset/encodeOffset agree (checked under C15)"},
 	})
 	register("C10", &propDef{
-		patterns: []string{"./embedded/tbtree"},
-		run:      c10,
+		patterns:    []string{"./embedded/tbtree"},
+		run:         c10,
 		explanation: "Decides the structural clauses behind snapshot immutability of the timed B-tree: copy-on-write discipline (every write to a logical node field is on a freshly allocated node, on the receiver of an in-place mutator whose call sites are all on private nodes, under a mutated()==true guard, or under commitLog in writeTo), lock pairing and lockset of tree and snapshot state, snapshots pinned to flushed roots and registered before return, discard bounded by open snapshots, and the flush ordering shared with C03. It does NOT decide equivalence with the abstract multi-version map.",
 		assumptions: []string{"node objects are only reachable through the fields listed in the COW table"},
 	})
 	register("C05", &propDef{
-		patterns: []string{"./embedded/store", "./embedded/sql"},
-		run:      c05,
+		patterns:    []string{"./embedded/store", "./embedded/sql"},
+		run:         c05,
 		explanation: "Decides the completeness of the optimistic-validation wiring: every snapshot read of a read-write transaction (found and not-found answers) records into the MVCC read-set; every record kind and every record field is validated at commit and counted by isEmpty(); validation runs inside the store mutex, after waiting for the index up to the precommit frontier read inside the critical section, through the live (sync) snapshot, and precedes performPrecommit unless there is nothing to validate; snapshots include the mandatory-MVCC transaction. It does NOT decide serializability over interleavings nor that the recorded information is sufficient.",
 		assumptions: []string{"default (safe) MVCC mode"},
 	})
 	register("C18", &propDef{
-		patterns: []string{"./pkg/auth", "./pkg/server/...", "./pkg/api/...", "./pkg/database", "./embedded/sql"},
-		run:      c18,
+		patterns:    []string{"./pkg/auth", "./pkg/server/...", "./pkg/api/...", "./pkg/database", "./embedded/sql"},
+		run:         c18,
 		explanation: "Decides the table-and-gate part of the access-control matrix completely: the permission tables are constant and mutually consistent; every RPC handler that touches a database passes getDBFromCtx with a constant method name that has a row; a handler that can reach a commit sink (effect class computed from the call graph of pkg/database, not from names) is gated by a row without read-only permission; administrative rows are admin/sysadmin-only; the system-database allow-list contains no write-class method; inside the gate every successful return is dominated by the system-database guard and by IsSysAdmin/HasPermissionForMethod; user changes invalidate sessions after the new record is saved; SQL statements that can write report readOnly()==false. It does NOT decide interceptor configuration, token expiry arithmetic or the pgsql front-end's own authentication.",
 		assumptions: []string{"gRPC interceptors are installed as configured in pkg/server (not analysed)"},
 	})
 	register("C07", &propDef{
-		patterns: []string{"./pkg/database", "./embedded/store", "./pkg/replication", "./pkg/server", "./pkg/client"},
-		run:      c07,
+		patterns:    []string{"./pkg/database", "./embedded/store", "./pkg/replication", "./pkg/server", "./pkg/client"},
+		run:         c07,
 		explanation: "Decides the structural clauses behind faithful replication: every exported database method from which a commit sink is reachable (call-graph effect class) is behind an isReplica() gate with the right polarity, replica-only operations behind the negated gate; every field of the replicated tx header is compared with or copied into the locally built header during precommit (Alh is a function of exactly these fields) and the Eh comparison can only be skipped through skipIntegrityCheck; the commit allowance is written only by AllowCommitUpto/SetExternalCommitAllowance, raised by the primary only with enough acknowledgements and accepted by a replica only after an Alh comparison; error texts and stream-metadata keys matched by the replicator are produced by the peer. It does NOT decide equality of histories over delivery schedules.",
 		assumptions: []string{"the replicator is the only client of ExportTx/ReplicateTx"},
 	})
 	register("C06", &propDef{
-		patterns: []string{"./pkg/database", "./embedded/store"},
-		run:      c06,
+		patterns:    []string{"./pkg/database", "./embedded/store"},
+		run:         c06,
 		explanation: "Decides the waiting discipline linearizability of the KV API rests on: every direct index read in pkg/database is preceded on all paths by an indexing wait (WaitForIndexingUpto / snapshotSince / SnapshotMustIncludeTxID) whose target derives from the committed frontier or the request's SinceTx, unless across the request's NoWait or AtTx edges; writes commit asynchronously only under NoWait, otherwise wait for commit and then for indexing of their own tx; KV preconditions and MVCC validation run under the store mutex after the index has caught up. It does NOT decide linearizability of histories.",
 		assumptions: []string{"default waiting semantics"},
 	})
 	register("C01", &propDef{
-		patterns: []string{"./embedded/store", "./embedded/ahtree", "./embedded/htree", "./pkg/api/schema", "./pkg/client/...", "./pkg/verification", "./pkg/server"},
-		run:      c01,
+		patterns:    []string{"./embedded/store", "./embedded/ahtree", "./embedded/htree", "./pkg/api/schema", "./pkg/client/...", "./pkg/verification", "./pkg/server"},
+		run:         c01,
 		explanation: "Decides structural necessary conditions of proof SOUNDNESS: every TxHeader / entry field flows into the hash that authenticates it; in the verifiers every parameter is used, every accepting path crosses each required comparison and each sub-verifier's verified edge (with the documented guards as the only alternatives), sub-verifiers are applied to header-derived arguments, VerifyLinearAdvanceProof accepts unconditionally only for adjacent txs and extends the chain only after a verified inclusion; on the client, the trusted state advances only after verifyDualProof (anchored in the trusted hash), signature check and a content-binding site, and the stored hash is the proven one; proto conversions carry every field. It does NOT decide completeness of proof generation nor the arithmetic of the Merkle verifiers.",
 		assumptions: []string{"sha256 collision resistance", "ahtree verifiers are correct for the positions they are given (C08 decides their guards)"},
 	})
 	register("C09", &propDef{
-		patterns: []string{"./embedded/store", "./pkg/database", "./embedded/appendable/...", "./embedded/tbtree"},
-		run:      c09,
+		patterns:    []string{"./embedded/store", "./pkg/database", "./embedded/appendable/...", "./embedded/tbtree"},
+		run:         c09,
 		explanation: "Decides the structural clauses behind corruption detection: every reader of a tx record ends in buildAndValidateHtree, which (unless the skip flag is set) rebuilds the entries tree over the digests of all entries read, recomputes Eh and compares Alh with the stored one; every value read compares length and sha256 with the entry's hVal unless the flag is set; the flag is constant true only at a frozen list of call sites and constant false on every verifiable path; sequential scans check the chain; open-time checks re-validate the last tx and the precommitted suffix. It does NOT decide that every bit flip changes a hash, nor absence of panics (C16).",
 		assumptions: []string{"sha256 second-preimage resistance"},
 	})
 	register("C04", &propDef{
-		patterns: []string{"./embedded/store", "./embedded/tbtree"},
-		run:      c04,
+		patterns:    []string{"./embedded/store", "./embedded/tbtree"},
+		run:         c04,
 		explanation: "Decides the structural clauses that keep the index equal to the committed log: nothing stored in the indexing bulk aliases the pooled transaction buffer; the tombstone of a previous mapped key is written with a writable metadata copy and its error checked; index entries carry the id of the tx they were read from, are built from per-transaction state only, and waiters are released by the tree's own logical time; non-indexable entries and foreign prefixes are skipped; an index ahead of the log is rejected; on the read side deleted/expired filters are applied before offsets and results; plus the TS-file/flush ordering shared with C03. It does NOT decide B-tree content (C10) nor key-mapper functions.",
 		assumptions: []string{"entry mappers return freshly allocated keys"},
 	})
 	register("C12", &propDef{
-		patterns: []string{"./embedded/sql"},
-		run:      c12,
+		patterns:    []string{"./embedded/sql"},
+		run:         c12,
 		explanation: "Decides the structural clauses behind SQL integrity constraints: in every caller of the row sink doUpsert, each update of the row image is followed on all paths by checkConstraints before the sink; every computed assignment consults the column's NOT NULL flag; update-style assignments cannot touch primary key columns (UPDATE and ON CONFLICT agree); the PK probe and unique-index probes go through the transaction's recording read layer before the write; a failed statement cancels the transaction; a unique index is created only after an emptiness probe. It does NOT decide constraint satisfaction over arbitrary histories and interleavings (that rests on C05).",
 		assumptions: []string{"type/length validation is performed by EncodeValue inside the sink"},
 	})
 	register("C13", &propDef{
-		patterns: []string{"./embedded/sql", "./embedded/document", "./pkg/server/sessions/...", "./pkg/database"},
-		run:      c13,
+		patterns:    []string{"./embedded/sql", "./embedded/document", "./pkg/server/sessions/...", "./pkg/database"},
+		run:         c13,
 		explanation: "Decides the structural clauses behind SQL transaction atomicity: the store transaction of a SQL transaction is committed at exactly one site (SQLTx.Commit), closed transactions are refused, cancel paths reach the store's Cancel (ROLLBACK statement, session rollback, every function that drops sessions), all SQL writes go through the SQLTx wrappers of one store transaction, and ROLLBACK TO SAVEPOINT must reach the store write-set (it does not today: known finding). It does NOT decide isolation between concurrent sessions (C05) nor the pgsql front-end.",
 		assumptions: []string{},
 	})
 	register("C08", &propDef{
-		patterns: []string{"./embedded/ahtree", "./embedded/htree", "./embedded/store", "./embedded/appendable/..."},
-		run:      c08,
+		patterns:    []string{"./embedded/ahtree", "./embedded/htree", "./embedded/store", "./embedded/appendable/..."},
+		run:         c08,
 		explanation: "Decides structural clauses of the Merkle constructions: domain-separation constants and their use at every tree hash site (prefix byte, buffer size, both children copied); verifiers guard evaluation with i<=j and i!=0, compare the evaluated root(s) with the claimed one(s), every verifier parameter influences the verdict beyond a zero check, the entry-tree verifier ties the number of terms to (Leaf, Width); ResetSize syncs and invalidates both caches before shrinking and never grows; Append rewinds both logs to their committed sizes before writing and advances sizes only when the batch sync did not fail. It does NOT decide equality of roots/proofs with the reference construction (digest-log arithmetic).",
 		assumptions: []string{"sha256"},
 	})
 	register("C16", &propDef{
-		patterns: []string{"./embedded/store", "./embedded/appendable/...", "./embedded/tbtree", "./embedded/sql", "./pkg/api/schema", "./pkg/pgsql/server/...", "./pkg/stream", "./pkg/database", "./embedded/ahtree", "./pkg/client/...", "./pkg/verification"},
-		run:      c16,
+		patterns:    []string{"./embedded/store", "./embedded/appendable/...", "./embedded/tbtree", "./embedded/sql", "./pkg/api/schema", "./pkg/pgsql/server/...", "./pkg/stream", "./pkg/database", "./embedded/ahtree", "./pkg/client/...", "./pkg/verification"},
+		run:         c16,
 		explanation: "Decides, for a frozen list of decoders of untrusted or possibly corrupted bytes, that every slice expression, index, fixed-size big-endian read and length-driven allocation is within bounds on every path: each obligation (a linear inequality over SSA values and slice lengths) is discharged from the branch conditions that dominate the access (plus stated callee contracts, themselves checked on every implementation, and an induction step over loop cursors); explicit panics in decoders are violations. It does NOT decide termination/time bounds nor the generated SQL parser's recursion depth.",
 		assumptions: []string{"integer overflow of cursor arithmetic is out of scope (lengths are bounded by buffer sizes)"},
 	})
 	register("C15", &propDef{
-		patterns: []string{"./embedded/store", "./embedded/sql", "./embedded/tbtree", "./embedded/ahtree", "./embedded/appendable", "./embedded/document", "./pkg/api/schema", "./pkg/client"},
-		run:      c15,
+		patterns:    []string{"./embedded/store", "./embedded/sql", "./embedded/tbtree", "./embedded/ahtree", "./embedded/appendable", "./embedded/document", "./pkg/api/schema", "./pkg/client"},
+		run:         c15,
 		explanation: "Decides structural agreement clauses of the codecs: sibling encoders/decoders perform the same sequence of fixed-width field operations; the SQL key and value codecs handle the same set of types on both sides (indexable types are storable; the only storable type without a key encoding is documented); length limits are compared with the same operator on the writing and the reading side; Timestamp values are normalised to microseconds wherever they enter the engine (the key codec encodes nanoseconds, the value codec microseconds); metadata proto conversions carry every attribute. It does NOT decide round-trip equality or order preservation for all values.",
 		assumptions: []string{"codecs are written in the straight-line cursor style (source order = wire order)"},
 	})
